@@ -54,13 +54,30 @@ def scratch_root():
 _scratch_ctr = 0
 
 
-def new_scratch(tag="t", long_path=False):
+_scratch_base = {}
+
+
+def new_scratch(tag="t", long_path=False, via_symlink=False):
     """fresh scratch directory; with long_path the returned directory lies ~300 characters deep (every
-    component far below NAME_MAX), so that paths of data files exceed 264 characters"""
+    component far below NAME_MAX), so that paths of data files exceed 264 characters; with via_symlink the
+    returned path reaches its directory through a symbolic link followed by '..' (<base>/site/current/.. with
+    current -> <base>/disk/run42, i.e. really <base>/disk), a form that must not be collapsed lexically"""
     global _scratch_ctr
     _scratch_ctr += 1
     p = os.path.join(scratch_root(), "%s%d" % (tag, _scratch_ctr))
     shutil.rmtree(p, ignore_errors=True)
+    if via_symlink:
+        base = p
+        os.makedirs(os.path.join(base, "disk", "run42"))
+        os.makedirs(os.path.join(base, "site"))
+        os.symlink(os.path.join(base, "disk", "run42"), os.path.join(base, "site", "current"))
+        p = os.path.join(base, "site", "current", "..")
+        _scratch_base[p] = base
+        return p
+    if os.environ.get("DRFVERIF_SPECIAL_PATHS") == "1":  # TEMP: switched on by default once F17 is fixed in /repo
+        # data sets live where users put them: a component with blanks and with characters that are special
+        # in glob patterns and regular expressions
+        p = os.path.join(p, "run[3] (a+b)")
     if long_path:
         p = os.path.join(p, "deep_" + "a" * 90, "archive_" + "b" * 90, "site_" + "c" * 60)
     os.makedirs(p)
@@ -68,6 +85,10 @@ def new_scratch(tag="t", long_path=False):
 
 
 def rm(path):
+    base = _scratch_base.pop(path, None)
+    if base is not None:
+        shutil.rmtree(base, ignore_errors=True)
+        return
     shutil.rmtree(path, ignore_errors=True)
     # a long_path scratch: remove its (then empty) ancestors below the scratch root as well
     root = scratch_root()
